@@ -17,6 +17,7 @@ EXPLANATION = (
     "socket error, and returns early only for keep_open."
     'Also decided: close() really closes the socket; tracked resources are per connection. '
     "Also decided (round 7): Calls on user objects (a stream entry's iterator) before the disconnect hook count as code that may raise; current_context.client is this request's connection before any user code of the request runs (resources are filed under it). "
+    'Also decided (round 9): The worker-loop obligations (slot cleared before hand-back, event protocol, handed back only while alive) are shared from C05/C18. '
     "Not decided: counts observed at run time, byte offsets."
 )
 
